@@ -132,6 +132,26 @@ theorem decDateTime_bcd (d : YMDHMS) (h : dateTimeInDomain d = true) :
     intro hc; simp only [bcdDateTime, List.cons.injEq] at hc; exact hmo_ne hc.2.2.1
   have hz2 : ¬ (bcdDateTime d = [0x20, 0, 0, 0, 0, 0, 0]) := by
     intro hc; simp only [bcdDateTime, List.cons.injEq] at hc; exact hmo_ne hc.2.2.1
+  have hz3 : ¬ (bcdDateTime d = [0x00, 0x01, 0x01, 0x01, 0, 0, 0]) := by
+    intro hc
+    simp only [bcdDateTime, List.cons.injEq, and_true] at hc
+    obtain ⟨c1, c2, c3, c4, c5, c6, c7⟩ := hc
+    have n1 := congrArg UInt8.toNat c1
+    have n2 := congrArg UInt8.toNat c2
+    have n3 := congrArg UInt8.toNat c3
+    have n4 := congrArg UInt8.toNat c4
+    have n5 := congrArg UInt8.toNat c5
+    have n6 := congrArg UInt8.toNat c6
+    have n7 := congrArg UInt8.toNat c7
+    rw [bcd2_toNat] at n1 n2 n3 n4 n5 n6 n7
+    simp at n1 n2 n3 n4 n5 n6 n7
+    have e1 : d.y = 1 := by omega
+    have e2 : d.mo = 1 := by omega
+    have e3 : d.d = 1 := by omega
+    have e4 : d.h = 0 := by omega
+    have e5 : d.mi = 0 := by omega
+    have e6 : d.s = 0 := by omega
+    simp [e1, e2, e3, e4, e5, e6] at hne
   have core : decDateTimeCore (two (d.y / 100) ++ (two (d.y % 100) ++ (two d.mo ++ (two d.d ++ (two d.h ++ (two d.mi ++ two d.s))))))
       = some d := by
     unfold decDateTimeCore
@@ -156,12 +176,12 @@ theorem decDateTime_bcd (d : YMDHMS) (h : dateTimeInDomain d = true) :
     simp only [this, if_false]
   constructor
   · unfold decDateTime
-    simp only [hz, hz2, or_self, if_false]
+    simp only [hz, hz2, hz3, or_self, if_false]
     unfold bcdDateTime
     rw [hdec]
     simp only [core]
   · unfold decDateTimePtr
-    simp only [hz, hz2, or_self, if_false]
+    simp only [hz, hz2, hz3, or_self, if_false]
     unfold bcdDateTime
     rw [hdec]
     simp only [core]
